@@ -291,6 +291,14 @@ func spawnBin(bin, prop, tier string, seed uint64, start, count int, extraEnv []
 		"VERIF_SEED="+strconv.FormatUint(seed, 10),
 		fmt.Sprintf("VERIF_RANGE=%d:%d", start, count),
 	)
+	if p := Registry[prop]; p != nil && p.OnStderr != nil {
+		// race-detector checks: one processor per worker. The schedule is
+		// cooperative anyway (one goroutine runs at a time); on one processor
+		// every goroutine also shares the local slot of each sync.Pool, so what a
+		// pool hands from one goroutine to the next does not depend on where the
+		// Go scheduler happened to place them
+		cmd.Env = append(cmd.Env, "GOMAXPROCS=1")
+	}
 	cmd.Env = append(cmd.Env, extraEnv...)
 	return runWorker(cmd, timeout)
 }
